@@ -526,8 +526,8 @@ def definitions(ctx, col):
             verdict = _count_by_value(qual.rsplit(".", 1)[-1], rn[0].value)
             if verdict is not None and verdict is not True:
                 pid_, got_, want_ = verdict
-                col.bad("R-COUNTVAL", qual, d.loc(rn[0]), what, f"`{norm_src(rn[0].value)}` gives {got_} for the tree with parents {pid_}; by definition the count is {want_} "
-                        f"(a root with a single child starts a branch although it is neither a tip nor a furcation)", stmt="countval", definite=True)
+                col.bad("R-COUNTVAL", qual, d.loc(rn[0]), what, f"`{norm_src(rn[0].value)}` gives {got_} for the tree with parents {pid_}; by definition the count is {want_}" +
+                        (" (a root with a single child starts a branch although it is neither a tip nor a furcation)" if qual.endswith("n_branch") else ""), stmt="countval", definite=True)
                 continue
             if verdict is True:
                 col.ok("R-COUNTVAL", qual, d.loc(rn[0]), what, f"`{norm_src(rn[0].value)}` equals the definition on all 154 witness trees", stmt="countval")
